@@ -189,9 +189,9 @@ func (r Condition) SetOperator(op Operator) Condition {
 }
 
 func (r *condition) setOperator(op Operator) {
-	if op == nil || isNilPtr(op) {
-		// a typed nil pointer whose Operator methods have
-		// value receivers would panic when they are called
+	if op == nil || isTypedNil(op) {
+		// a typed nil (pointer, func, ...) whose Operator
+		// methods use the value would panic when called
 		return
 	}
 
